@@ -138,5 +138,25 @@ Proof.
   split; [repeat split; vm_compute; reflexivity|].
   split; [vm_compute; reflexivity|]. split; [vm_compute; reflexivity|]. split; [vm_compute; reflexivity|].
   split; [reflexivity|]. split; [reflexivity|]. split; [intros _; repeat split; vm_compute; reflexivity|].
-  intros p Hp. vm_compute in Hp. destruct Hp as [<-|[]]. vm_compute. discriminate.
+  split; intros p Hp; vm_compute in Hp; destruct Hp as [<-|[]]; vm_compute; [discriminate|reflexivity].
 Qed.
+
+(* ---- known finding D27: with a template engine the loader opens os.path.abspath(file); for a configured `file` with
+   a symbolic link followed by ".." that is the lexically normalised location, another file than the configured one.
+   The model of the CURRENT code (loader_path) reproduces it, and the checker rejects it: file "/srv/cur/../data/f"
+   (for the OS: the link's target /../data/f, content "real"), the loader opens "/srv/data/f" (content "decoy"). ---- *)
+Definition cfg_d27 : config :=
+  {| c_request_path := bytes_of_string "/p"; c_filemode := true; c_target := bytes_of_string "/srv/cur/../data/f";
+     c_suffix := []; c_lookup_key := []; c_placeholder := bytes_of_string "..."; c_continue := true;
+     c_ds_ignore := false; c_template := true |}.
+Definition case_d27 : case :=
+  {| k_tftp := false; k_old232 := false; k_cached := false; k_cfg := cfg_d27; k_uri := bytes_of_string "/p";
+     k_table := [(bytes_of_string "/srv/cur/../data/f", 0, bytes_of_string "real");
+                 (bytes_of_string "/srv/data/f", 0, bytes_of_string "decoy")] |}.
+Theorem C04_refuted_D27_loader_abspath :
+  o_opened (run_model case_d27) = [bytes_of_string "/srv/data/f"] /\
+  o_body (run_model case_d27) = bytes_of_string "decoy" /\
+  validb case_d27 = false /\
+  holds case_d27 (run_model case_d27) =
+    ["confined"; "file_mode_single_file"; "serves_the_named_file"]%string.
+Proof. repeat split; vm_compute; reflexivity. Qed.
